@@ -534,6 +534,19 @@ udp_finish_tx(udp_ep *ep)
 	udp_start_tx(ep);
 }
 
+// A dialer's connection attempt is over when the pipe that carries it is
+// given up: tell the dialer, so that the dial fails and can be tried again.
+static void
+udp_pipe_fail_connect(udp_ep *ep, udp_pipe *p, nng_err err)
+{
+	nni_aio *aio;
+	if ((ep->dialer) && (p->state == PIPE_CONN_INIT) &&
+	    ((aio = nni_list_first(&ep->connaios)) != NULL)) {
+		nni_aio_list_remove(aio);
+		nni_aio_finish_error(aio, err);
+	}
+}
+
 static void
 udp_send_disc(udp_ep *ep, udp_pipe *p, udp_disc_reason reason)
 {
@@ -541,6 +554,7 @@ udp_send_disc(udp_ep *ep, udp_pipe *p, udp_disc_reason reason)
 	if (p->closed) {
 		return;
 	}
+	udp_pipe_fail_connect(ep, p, NNG_ECONNREFUSED);
 	p->closed = true;
 	while ((aio = nni_list_first(&p->rx_aios)) != NULL) {
 		nni_aio_list_remove(aio);
@@ -602,7 +616,8 @@ udp_recv_disc(udp_ep *ep, udp_sp_msg *disc, const nng_sockaddr *sa)
 	    nng_str_sockaddr(sa, buf, sizeof(buf)), disc->us_reason);
 
 	p = udp_find_pipe(ep, sa);
-	if (p != NULL) {
+	if ((p != NULL) && (!p->closed)) {
+		udp_pipe_fail_connect(ep, p, NNG_ECONNREFUSED);
 		p->closed = true;
 		while ((aio = nni_list_first(&p->rx_aios)) != NULL) {
 			nni_aio_list_remove(aio);
